@@ -1,5 +1,6 @@
 import YtkModel.Wire
 import YtkModel.PipelineData
+import YtkDriver.HeapScript
 open Lean
 
 namespace Ytk.C13
@@ -170,6 +171,9 @@ def handle : Wire.Handler := fun op a => do
     let xs ← Wire.getArr a "bytes"
     let ys ← xs.mapM Json.getNat?
     pure (.str (String.ofList (b64Encode ys)))
+  | "heapScript" =>
+    -- a script of heap-level operations on an explicit heap (YtkDriver/HeapScript.lean)
+    HeapScript.run a
   | _ => throw s!"C13: unknown op {op}"
 
 end Ytk.C13
